@@ -217,11 +217,11 @@ class Cosmo(object):
             if z1.size == 1:
                 dc = numpy.zeros(z2.size)
                 for i in numpy.arange(z2.size):
-                    dc[i] = dh * self.Ezinv_integral(z1, z2[i])
+                    dc[i] = dh * self.Ezinv_integral(z1[0], z2[i])
             elif z2.size == 1:
                 dc = numpy.zeros(z1.size)
                 for i in numpy.arange(z1.size):
-                    dc[i] = dh * self.Ezinv_integral(z1[i], z2)
+                    dc[i] = dh * self.Ezinv_integral(z1[i], z2[0])
             else:
                 raise ValueError("z1,z2: Must be same length or one a scalar")
 
@@ -715,13 +715,13 @@ def Dc(z1in, z2in,
             dc = numpy.zeros(z2.size)
             for i in numpy.arange(z2.size):
                 dc[i] = dh * Ezinv_integral(
-                    z1, z2[i], omega_m, omega_l, omega_k, npts=npts
+                    z1[0], z2[i], omega_m, omega_l, omega_k, npts=npts
                 )
         elif z2.size == 1:
             dc = numpy.zeros(z1.size)
             for i in numpy.arange(z1.size):
                 dc[i] = dh * Ezinv_integral(
-                    z1[i], z2, omega_m, omega_l, omega_k, npts=npts
+                    z1[i], z2[0], omega_m, omega_l, omega_k, npts=npts
                 )
         else:
             raise ValueError("z1,z2: Must be same length or one a scalar")
